@@ -438,7 +438,13 @@ func c16(c *Ctx) {
 				}
 			}
 		}
+		if ci == nil {
+			r.Bad("R-C16.3", "protocol.Accept per-connection ClientInfo", p.Pos(acc.Pos()), "Accept has no ClientInfo of its own: the metadata handed to NewConn is not this connection's")
+		}
 		for i, nc := range callsNamed(acc, mod+"/protocol.NewConn") {
+			if ci == nil {
+				break
+			}
 			elems, _ := sliceLiteralElems(nc.Call.Args[1])
 			got := map[string]bool{}
 			for _, e := range elems {
